@@ -246,6 +246,17 @@ unsigned int irc_pton(irc_inaddr *addr, unsigned int *bits, const char *input, i
                 *bits = 128;
             goto finish;
         }
+        /* All eight groups ended with a ':' (as in "1:2:3:4:5:6:7::"):
+         * a prefix length may still follow.
+         */
+        if (bits && (input[pos] == '/') && isdigit(input[pos + 1])) {
+            for (part = 0; isdigit(input[++pos]); )
+                part = part * 10 + input[pos] - '0';
+            if (part > 128)
+                return 0;
+            *bits = part;
+        } else if (bits)
+            *bits = 128;
     finish:
         /* Shift stuff after "::" up and fill middle with zeros. */
         if (cpos < 8) {
